@@ -45,7 +45,7 @@ NoShared_      == case.clause = "NoShared"    => Clean(NoShared(D, case.col), Ca
 KeysOwned_     == case.clause = "KeysOwned"   => Clean(KeysOwned(D, case.col), Cardinality(DOMAIN Idx(D, case.col)))
 Mcc3IsV1_      == case.clause = "Mcc3IsV1"    => Clean(Mcc3IsV1(D), 1)
 ElementsIndexed_ == case.clause = "ElementsIndexed" => Clean(ElementsIndexed(D), Len(D.elements))
-MembersOK_     == case.clause = "MembersOK"   => Clean(MembersOK(D), SumSeq([j \in 1..Len(D.elements) |-> Len(D.elements[j].members)]))
+MembersOK_     == case.clause = "MembersOK"   => Clean(MembersOK(D) \cup MembersSorted(D), SumSeq([j \in 1..Len(D.elements) |-> Len(D.elements[j].members)]))
 Abundance_     == case.clause = "Abundance"   => Clean(Abundance(D), Len(D.elements))
 BurnChain_     == case.clause = "BurnChain"   => Clean(BurnChain(D), Len(D.chainFile) + Len(D.chainLive))
 ================================================================================================================================
